@@ -383,8 +383,11 @@ func (c *Conn) OpenUpstream(ctx context.Context, sessionID string, opts ...Upstr
 					return
 				}
 
+				c.wireConnMu.Lock()
+				wireConn := c.wireConn
 				u.connOutages = c.state.Outages()
-				if err := u.resume(c.wireConn); err != nil {
+				c.wireConnMu.Unlock()
+				if err := u.resume(wireConn); err != nil {
 					u.logger.Errorf(ctx, "failed to resume upstream: %+v", err)
 					return
 				}
@@ -824,7 +827,9 @@ func (c *Conn) readDownstreamCallLoop(ctx context.Context) error {
 }
 
 func (c *Conn) subscribeDownstreamMetadata(ctx context.Context, alias uint32, filters []*message.DownstreamFilter) (<-chan *message.DownstreamMetadata, error) {
+	c.wireConnMu.Lock()
 	wireConn := c.wireConn
+	c.wireConnMu.Unlock()
 	orDone := func(inCh <-chan *message.DownstreamMetadata) <-chan *message.DownstreamMetadata {
 		resCh := make(chan *message.DownstreamMetadata)
 		go func() {
